@@ -17,6 +17,8 @@
 #include <forkcase.hpp>
 #include <exact_q.hpp>
 #include <kernel/lafem/dense_vector.hpp>
+#include <kernel/lafem/dense_vector_blocked.hpp>
+#include <kernel/lafem/sparse_vector.hpp>
 #include <kernel/lafem/sparse_matrix_csr.hpp>
 #include <kernel/lafem/sparse_matrix_bcsr.hpp>
 #include <kernel/lafem/sparse_matrix_cscr.hpp>
@@ -105,12 +107,65 @@ static void out_raw(std::ostream& o, const M_& a, std::size_t ni, std::size_t ne
   if(ix.size() > ni || el.size() > ne) o << " EXTRA-ARRAYS";
 }
 
+// ------------------------------------------------------------------------------------------------ structural validity
+// computed from the raw arrays exactly as they are printed (missing / null arrays = empty); printed as V<0|1> in every dump
+template<typename M_>
+static std::vector<std::size_t> idx_arr(const M_& a, std::size_t k)
+{
+  const auto& ix = a.get_indices(); const auto& ixs = a.get_indices_size();
+  std::vector<std::size_t> v;
+  if(k < ix.size() && ix[k] != nullptr) for(Index i(0); i < ixs[k]; ++i) v.push_back(std::size_t(ix[k][i]));
+  return v;
+}
+template<typename M_>
+static std::size_t val_len(const M_& a)
+{
+  const auto& el = a.get_elements(); const auto& els = a.get_elements_size();
+  return (!el.empty() && el[0] != nullptr) ? std::size_t(els[0]) : 0;
+}
+static bool rows_ok(const std::vector<std::size_t>& rp, const std::vector<std::size_t>& ci, std::size_t nrows, std::size_t ncols, std::size_t nnz)
+{
+  if(rp.size() != nrows + 1 || rp[0] != 0 || rp[nrows] != nnz || ci.size() != nnz) return false;
+  for(std::size_t i(0); i < nrows; ++i) if(rp[i] > rp[i + 1]) return false;
+  for(std::size_t k(0); k < ci.size(); ++k) if(ci[k] >= ncols) return false;
+  for(std::size_t i(0); i < nrows; ++i) for(std::size_t k(rp[i]); k + 1 < rp[i + 1]; ++k) if(ci[k] >= ci[k + 1]) return false;
+  return true;
+}
+template<typename IT_> static bool valid_flag(const SparseMatrixCSR<Q, IT_>& a)
+{
+  auto ci = idx_arr(a, 0), rp = idx_arr(a, 1); std::size_t n = val_len(a);
+  if(ci.empty() && rp.empty() && n == 0) return true;
+  return rows_ok(rp, ci, a.rows(), a.columns(), n);
+}
+template<typename IT_> static bool valid_flag(const SparseMatrixCSCR<Q, IT_>& a)
+{
+  auto ci = idx_arr(a, 0), rp = idx_arr(a, 1), rn = idx_arr(a, 2); std::size_t n = val_len(a);
+  if(ci.empty() && rp.empty() && rn.empty() && n == 0) return true;
+  if(!rows_ok(rp, ci, rn.size(), a.columns(), n)) return false;
+  for(std::size_t k(0); k < rn.size(); ++k) if(rn[k] >= a.rows() || (k + 1 < rn.size() && rn[k] >= rn[k + 1])) return false;
+  return true;
+}
+template<typename IT_> static bool valid_flag(const SparseMatrixBanded<Q, IT_>& a)
+{
+  auto off = idx_arr(a, 0);
+  if(val_len(a) != std::size_t(a.rows()) * off.size()) return false;
+  for(std::size_t k(0); k < off.size(); ++k) if(off[k] + 2 > a.rows() + a.columns() || (k + 1 < off.size() && off[k] >= off[k + 1])) return false;
+  return true;
+}
+template<typename IT_> static bool valid_flag(const DenseMatrix<Q, IT_>& a) { return val_len(a) == std::size_t(a.rows() * a.columns()); }
+template<typename IT_, int BH_, int BW_> static bool valid_flag(const SparseMatrixBCSR<Q, IT_, BH_, BW_>& a)
+{
+  auto ci = idx_arr(a, 0), rp = idx_arr(a, 1); std::size_t n = val_len(a);
+  if(ci.empty() && rp.empty() && n == 0) return true;
+  return n == ci.size() * std::size_t(BH_ * BW_) && rows_ok(rp, ci, a.rows(), a.columns(), ci.size());
+}
+
 template<typename IT_>
 static void dump(std::ostream& o, const SparseMatrixCSR<Q, IT_>& a)
 {
   o << "csr " << a.rows() << " " << a.columns() << " " << a.used_elements();
   out_raw(o, a, 2, 1);
-  o << " D";
+  o << " V" << (valid_flag(a) ? 1 : 0) << " D";
   const bool ef = (a.row_ptr() == nullptr);
   for(Index i(0); i < a.rows(); ++i) for(Index j(0); j < a.columns(); ++j) o << " " << (ef ? Q(0) : a(i, j));
 }
@@ -120,7 +175,7 @@ static void dump(std::ostream& o, const SparseMatrixCSCR<Q, IT_>& a)
 {
   o << "cscr " << a.rows() << " " << a.columns() << " " << a.used_elements() << " " << a.used_rows();
   out_raw(o, a, 3, 1);
-  o << " D";
+  o << " V" << (valid_flag(a) ? 1 : 0) << " D";
   const bool ef = (a.get_indices().size() == 0);
   for(Index i(0); i < a.rows(); ++i) for(Index j(0); j < a.columns(); ++j) o << " " << (ef ? Q(0) : a(i, j));
 }
@@ -130,7 +185,7 @@ static void dump(std::ostream& o, const SparseMatrixBanded<Q, IT_>& a)
 {
   o << "banded " << a.rows() << " " << a.columns() << " " << a.used_elements() << " " << a.num_of_offsets();
   out_raw(o, a, 1, 1);
-  o << " D";
+  o << " V" << (valid_flag(a) ? 1 : 0) << " D";
   const bool ef = (a.get_indices().size() == 0);
   for(Index i(0); i < a.rows(); ++i) for(Index j(0); j < a.columns(); ++j) o << " " << (ef ? Q(0) : a(i, j));
 }
@@ -140,7 +195,7 @@ static void dump(std::ostream& o, const DenseMatrix<Q, IT_>& a)
 {
   o << "dense " << a.rows() << " " << a.columns();
   out_raw(o, a, 0, 1);
-  o << " D";
+  o << " V" << (valid_flag(a) ? 1 : 0) << " D";
   for(Index i(0); i < a.rows(); ++i) for(Index j(0); j < a.columns(); ++j) o << " " << a(i, j);
 }
 
@@ -149,7 +204,7 @@ static void dump(std::ostream& o, const SparseMatrixBCSR<Q, IT_, BH_, BW_>& a)
 {
   o << "bcsr " << BH_ << " " << BW_ << " " << a.rows() << " " << a.columns() << " " << a.used_elements();
   out_raw(o, a, 2, 1);
-  o << " D";
+  o << " V" << (valid_flag(a) ? 1 : 0) << " D";
   const bool ef = (a.row_ptr() == nullptr);
   for(Index i(0); i < a.rows(); ++i) for(int h(0); h < BH_; ++h) for(Index j(0); j < a.columns(); ++j) for(int w(0); w < BW_; ++w)
     o << " " << (ef ? Q(0) : a(i, j)(h, w));
@@ -781,6 +836,21 @@ static bool step(Cur& c, St<IT_>& s, std::ostream& o)
     visit(s, [&](auto& a) { op_it<IT_>(a); });
     return true;
   }
+  if(op == "dtw")
+  {
+    // Q -> float -> double -> float -> Q (narrow, widen, narrow)
+    auto go = [&](auto& m)
+    {
+      typedef typename std::decay<decltype(m)>::type M;
+      typename M::template ContainerType<float, IT_> f1; f1.convert(m);
+      typename M::template ContainerType<double, IT_> d1; d1.convert(f1);
+      typename M::template ContainerType<float, IT_> f2; f2.convert(d1);
+      M b; b.convert(f2);
+      m = std::move(b);
+    };
+    if(s.fmt == F_CSR) go(s.csr); else if(s.fmt == F_DENSE) go(s.dense); else if(s.fmt == F_BANDED) go(s.band); else return false;
+    return true;
+  }
   if(op == "dt")
   {
     if(s.fmt == F_CSR) op_dt<IT_>(s.csr);
@@ -811,6 +881,96 @@ static void run(Cur& c, std::ostream& o)
   o << buf.str();
 }
 
+
+// ------------------------------------------------------------------------------------------------ vectors: cross-type clone / convert
+// "IT vecx <kind> ... nops (xclone d i m | xconv d i)*"   kind = dv L(vals) | dvb L(vals) (block size 2) | sv n L(idx) L(vals)
+// chain a : V<Q,IT> -> b : V<DT2,IT2> -> c : V<Q,IT> through clone(other, mode) resp. convert(other) (= Container::assign)
+template<typename V_>
+static void dump_vec(std::ostream& o, const char* kind, const V_& a)
+{
+  o << kind << " " << a.size();
+  const auto& ix = a.get_indices(); const auto& ixs = a.get_indices_size();
+  const auto& el = a.get_elements(); const auto& els = a.get_elements_size();
+  if(!ix.empty() && ix[0] != nullptr) out_arr(o, ix[0], ixs[0]); else o << " 0";
+  if(!el.empty() && el[0] != nullptr) out_arr(o, el[0], els[0]); else o << " 0";
+}
+
+template<typename B_, typename A_>
+static void vec_chain(std::ostream& o, A_& a, bool use_clone, CloneMode cm)
+{
+  const bool fv = use_clone && (cm == CloneMode::Layout || cm == CloneMode::Allocate), fi = use_clone && (cm == CloneMode::Allocate);
+  B_ b; A_ c;
+  if(use_clone) { b.clone(a, cm); xfill(a, b, fv, fi); c.clone(b, cm); xfill(b, c, fv, fi); }
+  else { b.convert(a); c.convert(b); }
+  XObs ab = xobserve(a, b), bc = xobserve(b, c), ac = xobserve(a, c);
+  int f = 0;
+  {
+    auto& ec = c.get_elements(); const auto& es = c.get_elements_size();
+    QV before; if(!ec.empty() && ec[0] != nullptr) before.assign(ec[0], ec[0] + es[0]);
+    if(!a.get_elements().empty() && a.get_elements()[0] != nullptr) a.format(Q(mpq_class(424242, 5)));
+    for(std::size_t i(0); i < before.size(); ++i) if(ec[0][i] != before[i]) f = 1;
+    if(f) for(std::size_t i(0); i < before.size(); ++i) ec[0][i] = before[i];
+  }
+  o << "X " << ab.sv << " " << ab.si << " " << ab.wab << " " << ab.wba << " " << bc.sv << " " << bc.si << " " << bc.wab << " " << bc.wba
+    << " " << ac.sv << " " << ac.si << " " << ac.wab << " " << ac.wba << " " << f << " ";
+  a = std::move(c);
+}
+
+template<typename IT_, template<typename, typename> class V_>
+static bool vec_ops(Cur& c, std::ostream& o, const char* kind, V_<Q, IT_>& a)
+{
+  typedef typename OtherIT<IT_>::type IT2;
+  std::ostringstream buf;
+  buf << "| "; dump_vec(buf, kind, a); buf << " ";
+  Index nops = c.idx();
+  for(Index k(0); k < nops; ++k)
+  {
+    std::string op = c.str();
+    Index d = c.idx(), i = c.idx(), m = 0;
+    bool use_clone = (op == "xclone");
+    if(use_clone) m = c.idx(); else if(op != "xconv") return false;
+    if(d > 1 || i > 1 || m > 4 || (d == 0 && i == 0)) return false;
+    const CloneMode cm = (m == 0 ? CloneMode::Shallow : m == 1 ? CloneMode::Layout : m == 2 ? CloneMode::Weak : m == 3 ? CloneMode::Deep : CloneMode::Allocate);
+    buf << "| ";
+    if(d == 0) vec_chain<V_<Q, IT2>>(buf, a, use_clone, cm);
+    else if(i == 0) vec_chain<V_<double, IT_>>(buf, a, use_clone, cm);
+    else vec_chain<V_<double, IT2>>(buf, a, use_clone, cm);
+    dump_vec(buf, kind, a); buf << " ";
+  }
+  o << buf.str();
+  return true;
+}
+
+template<typename DT_, typename IT_> using DVB2 = DenseVectorBlocked<DT_, IT_, 2>;
+
+template<typename IT_>
+static void run_vecx(Cur& c, std::ostream& o)
+{
+  std::string kind = c.str();
+  bool ok = false;
+  if(kind == "dv")
+  {
+    QV v = qlist(c);
+    DenseVector<Q, IT_> x; if(!v.empty()) x = mk_vec<IT_>(v);
+    ok = vec_ops<IT_, DenseVector>(c, o, "dv", x);
+  }
+  else if(kind == "dvb")
+  {
+    QV v = qlist(c);
+    DVB2<Q, IT_> x;
+    if(!v.empty()) { x = DVB2<Q, IT_>(Index(v.size() / 2)); Q* p = x.template elements<Perspective::pod>(); for(std::size_t i(0); i < v.size(); ++i) p[i] = v[i]; }
+    ok = vec_ops<IT_, DVB2>(c, o, "dvb", x);
+  }
+  else if(kind == "sv")
+  {
+    Index n = c.idx(); NV ix = c.idxlist(); QV v = qlist(c);
+    SparseVector<Q, IT_> x(n);
+    if(!v.empty()) { auto vi = mk_ivec<IT_>(ix); auto vv = mk_vec<IT_>(v); x = SparseVector<Q, IT_>(n, vv, vi, true); }
+    ok = vec_ops<IT_, SparseVector>(c, o, "sv", x);
+  }
+  if(!ok) { o << "BAD-OP"; }
+}
+
 // "IT vec L(values) nops (vperm L(p))*":  DenseVector::permute
 template<typename IT_>
 static void run_vec(Cur& c, std::ostream& o)
@@ -839,6 +999,12 @@ static void handle(const verif::Tokens& tk, std::ostream& o)
 {
   Cur c(tk);
   Index it = c.idx();
+  if(tk.size() > 1 && tk[1] == "vecx")
+  {
+    c.str();
+    if(it == 32) run_vecx<std::uint32_t>(c, o); else if(it == 64) run_vecx<std::uint64_t>(c, o); else o << "BAD-OP";
+    return;
+  }
   if(tk.size() > 1 && tk[1] == "vec")
   {
     c.str();
